@@ -247,6 +247,15 @@ def judgeBatchRoot (env : Env) (root : NodeId) (vis : NodeId → Nat) (cf : Bool
        ("C17b", (List.range c.n).all fun i => slotMatches c v.events i (v.slots.getD i default))]
   | _ => []
 
+/-- `Proofs.Payload.PlainPayloads`, decided on the attempts a script can reach (scripts are finite lists; beyond
+    their end every attempt fails) -/
+def plainPayloadsB (cfg : LeafCfg) (scr : LeafScript) : Bool :=
+  (match prepValue cfg scr with | some pv => pv.asResult?.isNone | none => true)
+  && (List.range 64).all fun k =>
+      match (scr.exec k).res with
+      | .ok y => (if cfg.execS = .res then (toResult y).valueOf else y).asResult?.isNone
+      | .error _ => true
+
 /-- all property predicates for one run, on an observation `o` -/
 def judgeRun (env : Env) (ctx0 : Ctx) (root : NodeId) (vis : NodeId → Nat) (cancelFree : Bool)
     (o : RunObs) (flat ref : RunObs) : List (String × Bool) :=
@@ -266,12 +275,17 @@ def judgeRun (env : Env) (ctx0 : Ctx) (root : NodeId) (vis : NodeId → Nat) (ca
   -- C05 speaks of non-batch nodes and flows; a batch node run directly is judged by C11
   let c05 := (match env.arena root with | .batch _ => true | _ => false) || Spec.c05 env ctx0 o ref
   let c10 := Spec.c10 o flat
-  let c17 := leafSegs.all (fun (cfg, scr, _, seg) => c17Visit cfg scr seg)
-  let c18 := Spec.c18 o
+  -- C11 inside flows ("the run terminates"): once a callback of a batch node has cancelled the context, nothing of
+  -- any other visit (of any node) follows; a batch node run directly is judged by `judgeBatchRoot`
+  let c11f := (match env.arena root with | .batch _ => true | _ => false) || Spec.c11Flow env ctx0 o
+  -- C17 speaks of payloads that are not themselves `flyt.Result`s (`Proofs.Payload.PlainPayloads`, boundary B2)
+  let c17 := leafSegs.all (fun (cfg, scr, _, seg) => !plainPayloadsB cfg scr || c17Visit cfg scr seg)
+  let c18 := Spec.c18 o && (!cancelFree || Spec.c18Followed env root o)
   let bj := judgeBatchRoot env root vis cancelFree o
   let c02 := c02 && (bj.all fun (k, b) => k != "C02b" || b)
   let c17 := c17 && (bj.all fun (k, b) => k != "C17b" || b)
   [("C01", c01), ("C02", c02), ("C03", c03), ("C04", c04), ("C05", c05), ("C10", c10), ("C17", c17), ("C18", c18)]
+    ++ (match env.arena root with | .batch _ => [] | _ => [("C11", c11f)])
     ++ bj.filter (fun p => p.1 != "C02b" && p.1 != "C17b")
 
 def process (sc : ScJ) (obs : ObsJ) : Except String Verdict := do
